@@ -36,6 +36,7 @@ def pstep (m : FifoMon) (ts : List String) : FifoMon × String :=
   | ["sub", _], ["refused"] =>
     if m.cancelled then (m, "ok") else (m, "reject refused-live submit refused although the context is live")
   | ["sub", _], ["hang"] => (m, "reject writer-blocked submit did not complete")
+  | _, ["leak"] => (m, "reject goroutine-leak the pipe goroutine did not exit after its reader channel closed")
   | [r], [a] =>
     if r == "read" || r == "tryread" then
       if a == "closed" then (m, verdictStr m.sawClosed)
@@ -164,7 +165,13 @@ def sstep (st : Driver.C17.SSt) (ts : List String) : Driver.C17.SSt × String :=
       let c0 : Core := { stack := [{ root := q.root, steps := [] }], visited := [] }
       if !coreDone q.plan fuel c0 then (st, "ok unjudged: the plan does not terminate within the model fuel") else
       let want := Driver.C17.fmtResult q (specOut q.plan q.root q.skip q.limit fuel)
-      (st, if got == want then "ok" else s!"reject result-mismatch got {got} but the plan defines {want}")
+      if got != want then (st, s!"reject result-mismatch got {got} but the plan defines {want}") else
+      -- TraversePaths is also judged against the recursive definition of the plan's paths (no stack at all)
+      if q.plan.helper == .paths then
+        let bound := (st.edges.foldl (fun m e => max m (max e.2.1 e.2.2)) q.root) + 1
+        let want2 := Driver.C17.fmtResult q (window q.skip q.limit (pathsSpec q.plan bound { root := q.root, steps := [] }))
+        (st, if got == want2 then "ok" else s!"reject paths-spec-mismatch got {got} but the maximal acyclic filtered paths are {want2}")
+      else (st, "ok")
 
 def seqMon : Suite := { σ := Driver.C17.SSt, init := {}, step := sstep }
 
